@@ -191,16 +191,31 @@ ASSUME_LOOM = [
     "the crate's generic code is instantiated with a RawMutex built on loom::sync::Mutex (every internal lock/unlock is a scheduling point); parking_lot itself, the AtomicUsize handle counters / alloc::sync::Arc of the shared flavours and the timer clock are std objects that loom does not intercept (no weak-memory exploration for them); non-atomic accesses inside the library are not routed through loom::cell, so loom cannot flag a data race inside the library",
 ]
 WAKE_PROPS = {"C03", "C06", "C10", "C11", "C12", "C13", "C14", "C15"}
-UNBOUNDED_OK = {"sem_mixed_fair", "sem_mixed_unfair", "sem_timeout_fair", "sem_timeout_unfair", "sem_shared_mixed", "sem_try_conserve", "event_set_reset_set",
-                "mpmc_abandon_cap1", "mpmc_last_sender_closes", "timer_two_waiters", "oneshot_competing", "broadcast_all",
-                # tiny scenarios (tens of schedules at bound 2): unbounded DPOR terminates within seconds
-                "swap_mutex_fair", "swap_mutex_unfair", "swap_sem_fair", "swap_sem_unfair", "swap_event", "swap_mpmc_recv", "swap_mpmc_send",
+# Thorough tier, per scenario (measured with the final lock shim, release build, idle machine):
+#   UNBOUNDED_OK : unbounded DPOR terminates within seconds (at most ~30 s)      -> bounds 3, none
+#   BIG          : bound 3 already takes minutes (or hits the 900 s cap, reported) -> bound 3 only
+#   all others   : bound 4 completes within ~2.5 minutes                           -> bounds 3, 4
+UNBOUNDED_OK = {"swap_mutex_fair", "swap_mutex_unfair", "swap_sem_fair", "swap_sem_unfair", "swap_event", "swap_mpmc_recv", "swap_mpmc_send",
                 "swap_oneshot", "swap_state", "swap_timer", "event_set_vs_reset", "mpmc_last_receiver_clears", "mpmc_refill_race",
                 "mpmc_notified_drop_contended", "mutex_notified_drop_contended_fair", "mutex_notified_drop_contended_unfair",
                 "sem_notified_drop_contended_fair", "sem_notified_drop_contended_unfair", "state_try_receive_contended", "timer_check_contended",
                 "mpmc_transient_clone", "mpmc_receiver_clones", "state_handles_race", "bcast_handles_race", "mpmc_cancel_vs_receive_cap0",
                 "mpmc_cancel_vs_receive_cap1", "mpmc_close_vs_send", "oneshot_shared_send_then_drop", "oneshot_shared_drop_only", "timer_abandon",
-                "mutex_fair_order", "sem_fair_order", "event_two_waiters", "mpmc_stream_consumer"}
+                "mutex_fair_order", "mpmc_double_close", "event_set_vs_abandon", "event_set_vs_abandon_tail", "mpmc_close_vs_abandon",
+                "mpmc_close_vs_abandon_rev", "state_send_vs_abandon", "state_send_vs_abandon_rev", "bcast_send_vs_abandon", "bcast_send_vs_abandon_rev",
+                "mpmc_orphan_recv", "mpmc_orphan_send", "state_orphan_recv", "bcast_orphan_recv", "oneshot_orphan_recv",
+                "mutex_barger_holds_fair", "mutex_barger_holds_unfair", "sem_barger_holds_fair", "sem_barger_holds_unfair", "event_setters_race"}
+BIG = {"mpmc_2p1c_cap0", "mpmc_2p1c_cap1", "mpmc_2p1c_cap0_seq", "mutex_cancel_in_queue_fair", "mutex_cancel_in_queue_unfair", "state_followers"}
+
+
+def loom_bounds(tier, name):
+    if tier == "quick":
+        return ["2"]
+    if name in UNBOUNDED_OK:
+        return ["3", "none"]
+    if name in BIG:
+        return ["3"]
+    return ["3", "4"]
 
 
 def loom_scenarios(ctx, pid):
@@ -237,7 +252,7 @@ def loom_attribution(name, props, msg):
 def loom_scenario(ctx, pid, exe, ldir, name, props):
     """All bounds of one scenario (one single-threaded child process per bound); returns (run records, violations)."""
     runs, viols = [], []
-    bounds = ["2"] if ctx.tier == "quick" else (["3", "none"] if name in UNBOUNDED_OK else ["3"])
+    bounds = loom_bounds(ctx.tier, name)
     for pb in bounds:
         ck = os.path.join(ldir, "%s.pb%s.%s.checkpoint.json" % (name, pb, pid))
         if os.path.exists(ck):
